@@ -74,7 +74,7 @@ static void run_case(const std::string &id, const std::vector<Op> &ops)
 	for (size_t k = 0; k < ops.size(); k++) {
 		const std::string &n = ops[k].name;
 		if (n == "run_string" || n == "accumulate" || n == "load_db_string" || n == "write_file")
-			if (const char *kt = known_trigger(ops[k].payload)) {
+			if (const char *kt = known_trigger(ops[k].payload) ? known_trigger(ops[k].payload) : (n == "load_db_string" ? known_trigger_db(ops[k].payload) : 0)) {
 				g_cnt[std::string("skipped_known_") + kt]++;
 				printf("RES %s skipped known=%s\n", id.c_str(), kt);
 				fflush(stdout);
@@ -143,7 +143,7 @@ static void run_case(const std::string &id, const std::vector<Op> &ops)
 		else if (o.name == "run_file") rc = guarded("RunFile", [&] { return I->RunFile(pl.c_str()); });
 		else if (o.name == "run_accumulated") rc = guarded("RunAccumulated", [&] { return I->RunAccumulated(); });
 		else if (o.name == "load_db_file") { is_load = true; rc = guarded("LoadDatabase", [&] { return I->LoadDatabase(pl.c_str()); }); }
-		else if (o.name == "load_db_string") { is_load = true; rc = guarded("LoadDatabaseString", [&] { return I->LoadDatabaseString(pl.c_str()); }); }
+		else if (o.name == "load_db_string") { is_load = true; std::string dbt = pregrow_line() + pl; rc = guarded("LoadDatabaseString", [&] { return I->LoadDatabaseString(dbt.c_str()); }); }
 		else harness_error("unknown op " + o.name);
 		CallInfo ci = check_after_call(I, what.c_str(), rc, is_load, planted);
 		char b[32];
@@ -152,9 +152,10 @@ static void run_case(const std::string &id, const std::vector<Op> &ops)
 		classes += (classes.empty() ? "" : ",") + std::string(is_load ? (ci.failed ? "load_fail" : "load_ok") : ci.cls);
 		g_cnt[std::string("class_") + (is_load ? (ci.failed ? "load_fail" : "load_ok") : ci.cls)]++;
 		if (!is_load && ci.reached && ci.keyword && count_nonblank_lines(pl.data(), pl.size()) >= 2) nt = true;
-		if (ci.failed && known_state_unnumbered(I)) {
-			g_cnt["skipped_known_unnumbered_solutions_survive_reload"]++;
-			printf("RES %s skipped known=unnumbered_solutions_survive_reload\n", id.c_str());
+		const char *ks = ci.failed ? known_state_after_failure(I) : 0;
+		if (ks) {
+			g_cnt[std::string("skipped_known_") + ks]++;
+			printf("RES %s skipped known=%s\n", id.c_str(), ks);
 			fflush(stdout);
 			return;      // the next case starts with a new instance
 		}
